@@ -22,7 +22,8 @@ EXPLANATION = (
     "impls.  (R8) an argument passed by reference is accepted only with the parameter's exact type, for "
     "each of the three by-reference forms (the write-back after the call stores without a cast; shared "
     "with C12.R4).  (R12) every result of a float + - * / on two run-time operands and every narrowing of a double to a single is tested with is_finite before it becomes a value (Overflow instead of infinity); R7 also covers the functions of the value arithmetic that pick the narrowest type for a float result (no unguarded, saturating float-to-integer conversion).  (R13) a size or address narrowed to i32 in the VM's value code (LEN, VARPTR, VARSEG, INSTR) is compared with a bound first."
-    " (R7, extended) the range test of a narrowing conversion is followed into the helper of the same file that performs the conversion.")
+    " (R7, extended) the range test of a narrowing conversion is followed into the helper of the same file that performs the conversion."
+    " (R14) a float that enters the VM from text (str::parse), from bytes or from digit-by-digit accumulation is tested with is_finite in the function that obtains it.")
 NOT_DECIDED = [
     "rounding direction and the exact boundary constants of each conversion (value-level)",
     "C06.R3 covers payloads computed by integer arithmetic inside the constructing function; values "
@@ -906,6 +907,75 @@ def r13_integer_results_of_builtins_fit(ctx, rule="C06.R13"):
     ctx.require(rule, 1)
 
 
+def r14_floats_from_outside_are_finite(ctx, rule="C06.R14", crate="rusty_basic", module="::interpreter::", floor=3):
+    """`a finite single or a finite double`: besides arithmetic (R12) a float enters the VM from text
+    (`str::parse::<f32 / f64>` accepts "inf", "nan" and rounds 1e400 to infinity), from bytes
+    (`from_bits` / `from_le_bytes` / the byte decoder of the value crate) and from the digit-by-digit
+    accumulation of VAL.  A function of the VM's built-ins that obtains a float this way tests it with
+    is_finite: the argument of some is_finite call in the function is that value (the call result, looked at
+    through `?` / match, or a local the arithmetic result moves through)."""
+    prog = ctx.prog
+    n = 0
+    for f in sorted(prog.fns.values(), key=lambda f: f.id):
+        if f.crate != crate or module not in "::" + f.id or f.body is None or f.kind == "const":
+            continue
+        body = f.body
+        pv = mir.Prov(body)
+        sources = []      # (kind, block or local, line)
+        for b, t in body.calls():
+            cp = t.get("cpath") or ""
+            last = cp.split("::")[-1]
+            dty = body.locals[t["d"][0]]["ty"] if t.get("d") else ""
+            if last == "parse" and "str" in cp and ("f32" in dty or "f64" in dty):
+                sources.append(("text", b, t.get("ln")))
+            elif last in ("from_bits", "from_le_bytes", "from_be_bytes", "from_ne_bytes", "bytes_to_f64", "bytes_to_f32") and \
+                    dty in ("f32", "f64"):
+                sources.append(("bytes", b, t.get("ln")))
+        for b, blk in enumerate(body.blocks):
+            if blk.get("c"):
+                continue
+            for st in blk["s"]:
+                if st["k"] == "assign" and not st["p"][1] and st["r"]["k"] == "bin" and st["r"].get("op") in ("Mul", "Div") \
+                        and body.locals[st["p"][0]]["ty"] in ("f32", "f64") \
+                        and mir.op_place(st["r"]["a"]) is not None:
+                    sources.append(("arith", st["p"][0], st.get("ln")))
+        if not sources:
+            continue
+        tests = []
+        for b, t in body.calls():
+            if (t.get("cpath") or "").split("::")[-1] == "is_finite" and t["args"]:
+                tests.append(pv.of_operand(t["args"][0]))
+        # closures of this function count as part of it (`.and_then(|v| if v.is_finite() ..)`)
+        closure_tests = any((t.get("cpath") or "").split("::")[-1] == "is_finite"
+                            for c in prog.closures_of(f) for _b, t in c.body.calls())
+        name = f.path.split("::", 1)[1]
+        kinds = sorted({k for k, _x, _l in sources})
+        for kind in kinds:
+            ss = [(x, l) for k, x, l in sources if k == kind]
+            ok = False
+            if kind in ("text", "bytes"):
+                ok = closure_tests or any(mir.origin_mentions(o, lambda z: z[0] == "call" and len(z) > 3 and z[3] in {x for x, _l in ss})
+                                          for o in tests)
+            else:
+                accum = set()
+                for x, _l in ss:
+                    accum |= _move_closure(body, {x})
+                # the accumulated value: any local of the same float type that an arithmetic result is moved into
+                ok = closure_tests or any(mir.op_place(t["args"][0]) is not None and
+                                          (mir.op_place(t["args"][0])[0] in accum or body.locals[mir.op_place(t["args"][0])[0]]["ty"] in ("f32", "f64", "&f32", "&f64"))
+                                          for _b, t in body.calls() if (t.get("cpath") or "").split("::")[-1] == "is_finite" and t["args"])
+            n += 1
+            ctx.decide(ok, rule, "%s:%s:%s" % (rule, name, kind), "%s:%s" % (f.file, ss[0][1]),
+                       "the float obtained from %s is tested with is_finite" % kind,
+                       "%s obtains a float from %s (line %s) and never tests it with is_finite: %s, so a SINGLE / DOUBLE variable "
+                       "holds a value that is not a finite number where Overflow (6) is prescribed"
+                       % (name, {"text": "str::parse", "bytes": "a byte decoder", "arith": "a multiplication / division"}[kind], ss[0][1],
+                          {"text": "`INPUT A!` fed 1e39 or inf stores inf", "bytes": "CVD of the bytes of an infinity returns it",
+                           "arith": "VAL of a 400-digit string is inf"}[kind]))
+    ctx.analysed_units(rule, sources=n)
+    ctx.require(rule, floor)
+
+
 def run(ctx):
     common.install(ctx)
     T = ot.OpTables(ctx.prog)
@@ -924,3 +994,4 @@ def run(ctx):
     r11_builtin_results_have_their_static_type(ctx, T)
     r12_float_results_are_finite(ctx)
     r13_integer_results_of_builtins_fit(ctx)
+    r14_floats_from_outside_are_finite(ctx)
